@@ -9,6 +9,7 @@ import (
 	"runtime"
 	"runtime/debug"
 	"strconv"
+	"time"
 
 	"harness/core"
 	"harness/env"
@@ -72,6 +73,23 @@ func main() {
 		json.NewEncoder(stdout).Encode(d.Plan(*tier))
 		return
 	}
+	// hang backstop: a single case that makes no progress for 5 minutes of real time (typical cases take
+	// milliseconds) is a hang outside the instrumented loops; the worker dies and the driver attributes the crash
+	go func() {
+		last, since := core.ProgressTicks.Load(), time.Now()
+		for {
+			time.Sleep(5 * time.Second)
+			if cur := core.ProgressTicks.Load(); cur != last {
+				last, since = cur, time.Now()
+			} else if time.Since(since) > 5*time.Minute {
+				fmt.Fprintln(os.Stderr, "vh: no progress for 5 minutes: hang")
+				buf := make([]byte, 1<<16)
+				n := runtime.Stack(buf, true)
+				os.Stderr.Write(buf[:n])
+				os.Exit(3)
+			}
+		}
+	}()
 	c := core.NewCtx(*prop, *tier, *job, *shard, *nshards, *out)
 	c.Seed = *seed
 	c.Deadline = *deadline
